@@ -261,6 +261,16 @@ def judge_c06(ctx, idx, op, impl, mi, ms, reason):
         lab = label_kv(ctx.case_label)
         ctx.count("sdec")
         ctx.count("sdec_events_%d" % min(len(op[2].split(",")), 40))
+        toks = op[2].split(",")
+        if "i" in toks:
+            # a read call fails with `Interrupted` at that point: whatever the calls return, they cannot have taken more
+            # than had been delivered by then (a failed read that is started over takes octets twice)
+            ctx.count("sdec_interrupted")
+            delivered = sum((len(t) - 2) // 2 for t in toks[:toks.index("i")] if t.startswith("d:"))
+            used = sum(int(p.rsplit("@", 1)[1]) for p in impl.split(";") if "@" in p and p.rsplit("@", 1)[1].isdigit())
+            if used > delivered:
+                f.append(Finding("property", idx, "a read that failed with Interrupted after %d delivered octets: %d octets were taken from the stream" % (delivered, used), expected="at most %d" % delivered, observed=impl[-200:], name="C06_read_exact"))
+            return f
         key = "base" + op[1]
         if key not in st:
             st[key] = impl
@@ -297,7 +307,11 @@ def judge_c07(ctx, idx, op, impl, mi, ms, reason):
         cls = cls.split(":")[0]
         ctx.count("L_" + ("lt20" if L < 20 else "gt1MiB" if L > (1 << 20) else "inrange") + "_" + cls + ("_second" if second else ""))
         # how much the script offers at all
-        offered = sum((len(t) - 2) // 2 for t in op[2].split(",") if t.startswith("d:")) - (20 if second else 0)
+        toks = op[2].split(",")
+        if "i" in toks:
+            # a read call fails with `Interrupted` there: only what was delivered before counts as offered
+            toks = toks[:toks.index("i")]
+        offered = sum((len(t) - 2) // 2 for t in toks if t.startswith("d:")) - (20 if second else 0)
         bad = None
         if second and not parts[0].startswith("ok:"):
             bad = "the well-formed frame in front of the announcement under test was not read (%s)" % parts[0][:40]
@@ -460,6 +474,13 @@ def judge_ctcp(ctx, idx, op, impl, mi, ms, reason):
 
 
 def judge_cli(ctx, idx, op, impl, mi, ms, reason):
+    if op[0] == "cliswitch":
+        # two connections on one client object; the first one's reader stops with a request outstanding
+        ctx.count("switch_scenarios")
+        f = same(ctx, idx, op, impl, mi, "Client model (one table per client object) <-> two verif_attach_stream calls on one DiameterClient")
+        if "first=pending" in impl:
+            f.append(Finding("property", idx, "the reader of the connection the request was sent on has stopped, its response future is still pending", expected="first=err", observed=impl, name="C12_stopped"))
+        return f
     if op[0] == "ctcp":
         return judge_ctcp(ctx, idx, op, impl, mi, ms, reason)
     if op[0] != "cli":
@@ -563,6 +584,17 @@ def judge_c13(ctx, idx, op, impl, mi, ms, reason):
             for x in judge_c13(ctx, idx, ["tls"] + c.split(","), ia[k], ma[k], sa[k], reason):
                 x.msg = "connection %d of a sequence in one process (%s): %s" % (k + 1, c, x.msg)
                 f.append(x)
+        return f
+    if op[0] == "tlsrude":
+        # TLS on, and a peer that makes the handshake fail: the client refuses to proceed and says nothing in clear text,
+        # on this connection or on any other
+        ctx.count("rude_peers")
+        f = same(ctx, idx, op, impl, mi, "Tls (a failed handshake is a refusal) <-> DiameterClient::connect against a peer that breaks the handshake")
+        if impl.startswith("skipped"):
+            return []
+        r = kv(impl)
+        if not impl.startswith("refused") or r.get("clear") != "0":
+            f.append(Finding("property", idx, "with TLS enabled and the handshake failing, the client proceeded or put Diameter octets on a socket in clear text", expected="refused clear=0", observed=impl, name="C13_no_cleartext"))
         return f
     if op[0] != "tls":
         return same(ctx, idx, op, impl, mi, "set-up")
@@ -767,6 +799,13 @@ def judge_c18(ctx, idx, op, impl, mi, ms, reason):
             r = wire_walk(w[20:], ctx.last_dump["avps"], False)
             if r:
                 f.append(Finding("property", idx, "AVP accessors of a decoded message do not follow the wire order: " + r, expected="wire order", observed=impl[:300], name="C18_decoded_order"))
+    elif op[0] == "enc" and ctx.last_dump is not None:
+        # built or decoded: what the list accessor shows is what goes on the wire, in that order
+        ctx.count("enc_vs_accessors")
+        if impl.startswith("ok ") and len(impl) > 3 + 40:
+            r = wire_walk(bytes.fromhex(impl[3:])[20:], ctx.last_dump["avps"], True)
+            if r:
+                f.append(Finding("property", idx, "the AVP list accessor does not show the AVPs in the order they go on the wire: " + r, expected="wire order", observed=impl[:200], name="C18_decoded_order"))
     elif op[0] == "get" and ctx.last_dump is not None:
         codes = [a["code"] for a in ctx.last_dump["avps"]]
         want = str(codes.index(op[1])) if op[1] in codes else "-"
@@ -781,7 +820,7 @@ def judge_c18(ctx, idx, op, impl, mi, ms, reason):
         if impl != want:
             f.append(Finding("property", idx, "typed accessors disagree with the message content", expected=want, observed=impl, name="C18_typed"))
     else:
-        ctx.last_dump = None if op[0] not in ("get", "acc") else ctx.last_dump
+        ctx.last_dump = None if op[0] not in ("get", "acc", "enc") else ctx.last_dump
         ctx.count("op_" + op[0])
     return f
 
@@ -819,9 +858,9 @@ PROPS = {
     "C08": dict(family="c08", judge=judge_c08, probes=("serve", "lsn"), expect_keys=["serve_good", "serve_herr", "serve_unencodable", "serve_malformed_kind0", "serve_malformed_kind1", "serve_malformed_kind2", "serve_malformed_kind3"], title="Server answers each request exactly once, in order, unmodified"),
     "C09": dict(family="c09", judge=judge_c08, probes=("serve",), expect_keys=["serve_readcut", "serve_writecut"], title="Server survives connection loss at any byte offset"),
     "C10": dict(family="c10", judge=judge_c10, probes=("lsn",), title="One misbehaving connection cannot disturb the others"),
-    "C13": dict(family="c13", judge=judge_c13, probes=("tls", "tlsq"), title="TLS settings are honoured exactly"),
+    "C13": dict(family="c13", judge=judge_c13, probes=("tls", "tlsq", "tlsrude"), title="TLS settings are honoured exactly"),
     "C11": dict(family="c11", judge=judge_cli, probes=("cli", "ctcp"), model_input=cli_model_input, title="Client delivers each answer to the request it belongs to"),
-    "C12": dict(family="c12", judge=judge_cli, probes=("cli", "ctcp"), expect_keys=["ev_stop", "ev_refused", "ev_rm", "ev_dl", "future_err", "future_got", "future_pending", "late_err", "tcp_scenarios"], model_input=cli_model_input, title="Every response future eventually completes"),
+    "C12": dict(family="c12", judge=judge_cli, probes=("cli", "ctcp", "cliswitch"), expect_keys=["ev_stop", "ev_refused", "ev_rm", "ev_dl", "future_err", "future_got", "future_pending", "late_err", "tcp_scenarios"], model_input=cli_model_input, title="Every response future eventually completes"),
     "C14": dict(family="c14", judge=judge_c14, probes=("dget", "dbyname", "dapp", "dcmd"), title="Dictionary lookups reflect exactly what was loaded, latest wins"),
     "C15": dict(family="c15", extra=shipped_defs, judge=judge_c15, probes=("dec", "dget", "dbyname", "rt"), title="AVPs are typed by their exact dictionary entry or rejected"),
     "C16": dict(family="c16", extra=shipped_defs, judge=judge_c16, probes=("add_by_name", "avp_name", "enc", "dump", "len"), title="Building an AVP by name follows the dictionary; failure changes nothing"),
